@@ -265,6 +265,26 @@ func c05options() []c05opt {
 	}
 }
 
+// c05reusedSymtab is kept out of c05options so that the rotation of options over the boundary cases stays as it was.
+func c05reusedSymtab() c05opt {
+	return c05opt{"reused-symtab", func() (ugo.CompilerOptions, bool) {
+		// the symbol table has been through two earlier compilations (one successful, one failing); the constants
+		// those produced are not handed on, only the table is
+		st := ugo.NewSymbolTable()
+		_, _ = ugo.Compile([]byte("global (gA, gB)\nv1 := 1\nreturn gA"), ugo.CompilerOptions{SymbolTable: st})
+		_, _ = ugo.Compile([]byte("global gC\nv2 := nosuchname"), ugo.CompilerOptions{SymbolTable: st})
+		return ugo.CompilerOptions{SymbolTable: st}, false
+	}}
+}
+
+// c05symtabProbes reference names that earlier compilations left in a re-used symbol table (options "reused-symtab" and
+// "eval-session": globals gA, gB, gC, local v1).
+var c05symtabProbes = []string{
+	"return gA", "return [gA, gB, gC]", "gB = 1\nreturn gC", "global gA\nreturn gA", "global (gC, gNew)\ngNew = gC\nreturn gNew",
+	"return v1", "v1 = 2\nreturn v1 + 1", "f := func() { return [gA, gC] }\nreturn f()", "gC += 1", "x, gA := [1, 2]\nreturn x",
+	"return \"gA\" + gB", "param p\nreturn [p, gA]", "try {\n  gB.x = 1\n} catch e {\n  return gC\n}",
+}
+
 // c05comboOptions: every combination of the three trace flags x trace writer set / nil x optimizer off / default / budget 1
 // (flags and writer are independent fields; code paths test one or the other).
 func c05comboOptions() []c05opt {
@@ -299,6 +319,7 @@ var c05comboProbes = []string{
 	"for i := 0; i < 3; i++ {\n  if i == 1 {\n    continue\n  }\n}\nreturn 1", "try {\n  throw 1\n} catch e {\n  return e\n} finally {\n}",
 	"const k = 2\nf := func(a, ...b) {\n  return a ? b : k * 3\n}\nreturn f(1 + 2, 3)", "m := import(\"good\")\nreturn m",
 	"return 1 + ", "x := := 1", "return undefinedName",
+	"(1 + 2)()", "return (-1)()", "x := (1 + 2)(3 * 4)\nreturn x", "f := func(a) { return a }\nreturn f((1 + 2) * 3)((4))", "return [1, 2][0 + 1]()", "return {a: 1 + 1}.a()", "return (true ? 1 + 2 : 3)()",
 	"return [import(\"mod0\").get(), import(\"mod1\").get(), import(\"good\").inc(), import(\"./leaf.ugo\"), import(\"./ok.ugo\")]", "return import(\"cyc2\")", "return import(\"mod1\")",
 	"if false {\n  x := 1\n}\nreturn 2", "if 1 - 1 {\n  return 1\n} else {\n  return 2\n}", "x := 5\nif \"\" {\n  x = 1\n}\nif undefined {\n  x = 2\n} else if 0.0 {\n  x = 3\n}\nreturn x",
 	"y := false ? 1 : 2\nfor false {\n  y++\n}\nreturn true ? y : 0", "if true {\n  return 1\n} else {\n  return 2\n}", "f := func() {\n  if !true {\n    return 1\n  }\n  return 0 || 3\n}\nreturn f()",
@@ -376,6 +397,8 @@ func (m c05) one(c *core.Ctx, input []byte, opt c05opt, class string) (reached b
 		// not break later compiles
 		_, _, _ = ev.Run(context.Background(), []byte("m0 := import(\"mod0\")\nm1 := import(\"mod1\")\nfl := -0.0\nq := someUndefinedName"))
 		_, _, _ = ev.Run(context.Background(), []byte("const zz = 0\nk0 := import(\"mod1\")\nk1 := import(\"cyc2\")\nqq := 1 % zz"))
+		_, _, _ = ev.Run(context.Background(), []byte("global (gA, gB)\nv1 := 1\nqz := someUndefinedName3"))
+		_, _, _ = ev.Run(context.Background(), []byte("global gC\nthrow gC"))
 		_, _, _ = ev.Run(context.Background(), []byte("k2 := import(\"mod0\")\nk3 := import(\"bad\")"))
 		_, _, _ = ev.Run(context.Background(), []byte("k4 := import(\"./leaf.ugo\")\nk5 := import(\"./broken.ugo\")"))
 		_, _, _ = ev.Run(context.Background(), []byte("k6 := import(\"./ok.ugo\")\nthrow \"run-time failure after an import\""))
@@ -678,6 +701,7 @@ func (m c05) Run(c *core.Ctx) {
 	for _, o := range combos {
 		byName[o.name] = o
 	}
+	byName["reused-symtab"] = c05reusedSymtab()
 	if c.Replay != nil {
 		var w c05wit
 		if json.Unmarshal(c.Replay, &w) == nil {
@@ -753,6 +777,20 @@ func (m c05) Run(c *core.Ctx) {
 			}
 		}
 		c.Nontrivial(fmt.Sprintf("combo %d", pi))
+	}
+	// (1c) names left behind in a re-used symbol table
+	for _, src := range c05symtabProbes {
+		idx++
+		if idx%c.NBatch != c.Batch {
+			continue
+		}
+		src := src
+		if !c.Begin(func() string { return "re-used symbol table\n" + src }) {
+			continue
+		}
+		m.one(c, []byte(src), byName["reused-symtab"], "symtab-probe")
+		m.one(c, []byte(src), byName["eval-session"], "symtab-probe")
+		c.Count("symtab_probes")
 	}
 	// (2) mutations of the corpus and of generated programs
 	nmut := c.Pick(1500, 150000)
